@@ -9,12 +9,14 @@ in `Lemmas.Http.foldCalls_spec` / `foldl_stepName`), with header names / values 
 Outside the documented domain (a header name or value that is not ASCII) the builders panic; the property does not
 constrain that case (`inDomain`).
 
-Two defects of the pinned tree are visible here.  `stale-content-type`: when no content type is set explicitly and a
+One defect of the pinned tree is visible here (key `stale-content-type`): when no content type is set explicitly and a
 body is replaced by a body of another kind, the request carries the content type of the *first* body
-(`copy_content_type_from_body` only fills a gap).  `unknown-length-body-dropped`: a body handed over as a reader of
-unknown length (`body(Body::from_reader(r, None))`) is not sent at all (`is_empty() == Some(false)` is false for `None`).
-Hence the full statement `C14_full` is false (`C14_full_false`, `C14_full_false_dropped`); `C14_sound_partial` is the
-strongest true restriction and `stale_content_type_exact` / `unknown_length_body_dropped_exact` pin the defects.
+(`copy_content_type_from_body` only fills a gap).  Hence the full statement `C14_full` is false (`C14_full_false`);
+`C14_sound_partial` is the strongest true restriction and `stale_content_type_exact` pins the defect.
+A second defect (`unknown-length-body-dropped`: a body of unknown length was not sent) was repaired in /repo fb3ba05; the
+model follows the repaired code and the region is covered by the theorems again (`unknown_length_body_sent`).
+The order in which the headers are emitted (sorted by name since /repo cda2127) is modelled (`emitHeaders`) but is not
+C14's concern — C11 proves it independent of the hash-map iteration order.
 -/
 import CruxVerif.Lemmas.Http
 namespace Props.C14
@@ -28,13 +30,9 @@ def modelValues (calls : List Call) (k : Bytes) : List Bytes :=
   | some vs => vs
   | none => if k = ctName then (match firstBody calls with | some (k1, _) => [k1.mime] | none => []) else []
 
-/-- The body bytes the code sends: those of the last body call — unless that call handed over a reader of unknown
-    length, in which case nothing is sent. -/
-def modelBody (calls : List Call) : Bytes := if lastBodyIsReader calls then [] else expectedBody calls
-
 /-- Closed form of `buildRequest` inside the domain (ASCII header names and values). -/
 theorem buildRequest_closed (c : ReqCase) (hd : inDomain c.calls = true) :
-    ∃ hs, buildRequest c = .req 1 (upper c.method) (expectedUrl c) hs (modelBody c.calls) ∧
+    ∃ hs, buildRequest c = .req 1 (upper c.method) (expectedUrl c) hs (expectedBody c.calls) ∧
       ∀ k, valuesFor hs k = modelValues c.calls k := by
   obtain ⟨r, hr⟩ := foldCalls_some_of_inDomain c.calls
     { method := upper c.method, url := c.url, headers := [], body := [], lenKnown := true } hd
@@ -54,9 +52,9 @@ theorem buildRequest_closed (c : ReqCase) (hd : inDomain c.calls = true) :
     intro n
     rw [he n, foldl_stepName, entry_nil]
     cases lastExplicit n c.calls <;> rfl
-  -- a non-empty body implies a content-type entry
-  have hct : r.body.isEmpty = false → r.headers.contains ctName = true := by
-    intro hbe
+  -- a body call implies a content-type entry
+  have hct : lastBody c.calls ≠ none → r.headers.contains ctName = true := by
+    intro hlb
     have h1 := hent ctName
     unfold entry at h1
     by_cases hc : r.headers.contains ctName = true
@@ -69,34 +67,28 @@ theorem buildRequest_closed (c : ReqCase) (hd : inDomain c.calls = true) :
         simp only [hl, if_true, firstMime] at h1
         have hf : firstBody c.calls = none := by
           cases hfb : firstBody c.calls <;> simp [hfb] at h1 <;> rfl
-        have hlb : lastBody c.calls = none := (lastBody_none_iff _).mpr hf
-        rw [hb, hlb] at hbe
-        simp at hbe
-  -- `into_protocol_request` adds no header; it sends the body iff its length is known
-  have hproto : (intoProtocol r).headers = r.headers ∧
-      (intoProtocol r).body = (if r.lenKnown then r.body else []) ∧
+        exact hlb ((lastBody_none_iff _).mpr hf)
+  -- `into_protocol_request` adds no header and sends the body as it is
+  have hproto : (intoProtocol r).headers = r.headers ∧ (intoProtocol r).body = r.body ∧
       (intoProtocol r).url = r.url ∧ (intoProtocol r).method = r.method := by
     unfold intoProtocol
-    by_cases hcond : (r.lenKnown && !r.body.isEmpty) = true
-    · simp only [hcond, if_true, and_true]
-      simp only [Bool.and_eq_true, Bool.not_eq_true'] at hcond
-      simp [copyContentType, hct hcond.2, hcond.1]
-    · simp only [hcond, Bool.false_eq_true, if_false, and_true, true_and]
-      cases hk : r.lenKnown with
-      | false => rfl
-      | true =>
-        simp only [hk, Bool.true_and, Bool.not_eq_true', Bool.not_eq_false] at hcond
-        simp [List.isEmpty_iff.mp hcond]
-  refine ⟨r.headers.flat, ?_, ?_⟩
-  · simp only [buildRequest, hr, hproto.1, hproto.2.1, hproto.2.2.1, hproto.2.2.2, hm, hu, hb, hlen]
-    simp only [expectedUrl, modelBody, expectedBody]
+    by_cases hcond : (r.lenKnown && r.body.isEmpty) = true
+    · simp [hcond]
+    · simp only [hcond, Bool.false_eq_true, if_false, and_true]
+      have hlb : lastBody c.calls ≠ none := by
+        intro hlb
+        apply hcond
+        rw [hlen, hb, hlb, lastBodyIsReader_of_none _ hlb]
+        rfl
+      simp [copyContentType, hct hlb]
+  refine ⟨emitHeaders r.headers, ?_, ?_⟩
+  · simp only [buildRequest, hr, hproto.1, hproto.2.1, hproto.2.2.1, hproto.2.2.2, hm, hu, hb]
+    simp only [expectedUrl, expectedBody]
     congr 1
     · cases lastQuery c.calls <;> rfl
-    · cases lastBodyIsReader c.calls
-      · cases h : lastBody c.calls <;> rfl
-      · rfl
+    · cases h : lastBody c.calls <;> rfl
   · intro k
-    rw [valuesFor_flat _ hkl, values_eq_entry, hent k]
+    rw [valuesFor_emitHeaders _ hkl, values_eq_entry, hent k]
     unfold modelValues firstMime
     cases lastExplicit k c.calls with
     | some vs => rfl
@@ -117,24 +109,11 @@ theorem one_effect (c : ReqCase) :
     simp [buildRequest, foldCalls_none_of_not_inDomain _ _ hd]
 
 /-- Method, URL (after the last `query`, else as parsed) and body bytes (of the last body call, else empty) are the
-    ones specified — whatever else the calls do (bodies whose length is known in advance: every `body_*` constructor). -/
-theorem method_url_body_exact (c : ReqCase) (hd : inDomain c.calls = true)
-    (hr : lastBodyIsReader c.calls = false) :
+    ones specified — whatever else the calls do. -/
+theorem method_url_body_exact (c : ReqCase) (hd : inDomain c.calls = true) :
     ∃ hs, buildRequest c = .req 1 (upper c.method) (expectedUrl c) hs (expectedBody c.calls) := by
   obtain ⟨hs, h, _⟩ := buildRequest_closed c hd
-  simp only [modelBody, hr, Bool.false_eq_true, if_false] at h
   exact ⟨hs, h⟩
-
-/-- the sent body is the specified one unless a non-empty body of unknown length is dropped -/
-theorem modelBody_eq_expected (calls : List Call) (hdr : droppedBody calls = false) :
-    modelBody calls = expectedBody calls := by
-  unfold modelBody
-  unfold droppedBody at hdr
-  cases hl : lastBodyIsReader calls with
-  | false => simp
-  | true =>
-    simp only [hl, Bool.true_and, bne_eq_false_iff_eq] at hdr
-    simp [hdr]
 
 /-- Every header, compared by lower-cased name, carries exactly `modelValues`: all values of the last
     `header(name, …)` / `content_type(…)` call naming it, in order; else the body's MIME for `content-type`. -/
@@ -186,14 +165,12 @@ theorem modelValues_eq_expected (calls : List Call) (hst : staleContentType call
     · simp [hk]
 
 /-- **C14 on the model, strongest true form**: every observation the model produces is accepted by the specification,
-    for every method, URL and list of builder calls whose content type is not stale and whose body is not dropped. -/
-theorem C14_sound_partial (c : ReqCase) (hst : staleContentType c.calls = false)
-    (hdr : droppedBody c.calls = false) :
+    for every method, URL and list of builder calls whose content type is not stale. -/
+theorem C14_sound_partial (c : ReqCase) (hst : staleContentType c.calls = false) :
     okReq c (buildRequest c) = true := by
   unfold okReq
   by_cases hd : inDomain c.calls = true
   · obtain ⟨hs, h, hv⟩ := buildRequest_closed c hd
-    rw [modelBody_eq_expected _ hdr] at h
     simp only [hd, Bool.not_true, Bool.false_eq_true, if_false, h, beq_self_eq_true, Bool.true_and]
     unfold headersOk
     rw [List.all_eq_true]
@@ -216,10 +193,9 @@ theorem C14_full_false : ¬ C14_full := by
 /-- In the defect region the model produces exactly the keyed defect: everything is as specified except that
     `content-type` carries the MIME of the first body; the oracle's key for it is `stale-content-type`. -/
 theorem stale_content_type_exact (c : ReqCase) (hd : inDomain c.calls = true)
-    (hst : staleContentType c.calls = true) (hdr : droppedBody c.calls = false) :
+    (hst : staleContentType c.calls = true) :
     okReq c (buildRequest c) = false ∧ rejectKeyReq c (buildRequest c) = "stale-content-type" := by
   obtain ⟨hs, h, hv⟩ := buildRequest_closed c hd
-  rw [modelBody_eq_expected _ hdr] at h
   -- the stale region: no explicit content type, first and last body of different documented types
   have hst' := hst
   unfold staleContentType at hst'
@@ -264,35 +240,12 @@ theorem stale_content_type_exact (c : ReqCase) (hd : inDomain c.calls = true)
       cases lastExplicit k c.calls <;> simp [hk]
   simp [hstale]
 
-/-- In the second defect region (`unknown-length-body-dropped`) the model sends an empty body where the specification
-    demands the reader's bytes; everything else about the request is computed as usual, and the oracle's key is this one. -/
-theorem unknown_length_body_dropped_exact (c : ReqCase) (hd : inDomain c.calls = true)
-    (hdr : droppedBody c.calls = true) :
-    (∃ hs, buildRequest c = .req 1 (upper c.method) (expectedUrl c) hs []) ∧ expectedBody c.calls ≠ [] ∧
-    okReq c (buildRequest c) = false ∧ rejectKeyReq c (buildRequest c) = "unknown-length-body-dropped" := by
-  obtain ⟨hs, h, _⟩ := buildRequest_closed c hd
-  have hdr' := hdr
-  unfold droppedBody at hdr'
-  simp only [Bool.and_eq_true, bne_iff_ne, ne_eq] at hdr'
-  obtain ⟨hrd, hne⟩ := hdr'
-  simp only [modelBody, hrd, if_true] at h
-  have hne' : ([] == expectedBody c.calls) = false := by
-    cases hb : expectedBody c.calls with
-    | nil => exact absurd hb hne
-    | cons _ _ => rfl
-  have hok : okReq c (buildRequest c) = false := by
-    rw [h]; simp [okReq, hd, hne']
-  refine ⟨⟨hs, h⟩, hne, hok, ?_⟩
-  unfold rejectKeyReq
-  rw [hok, h]
-  simp [hne, hdr]
-
-/-- … witness: `post(url).body(Body::from_reader(Cursor::new(b"hello"), None))` reaches the shell with no body. -/
-theorem C14_full_false_dropped : ¬ C14_full := by
-  intro h
-  have := h ⟨ascii "post", ascii "https://example.com/", [Call.bodyReader (ascii "hello")]⟩
-  revert this
-  decide
+/-- Repaired by /repo fb3ba05 (was finding `unknown-length-body-dropped`): a body handed over as a reader of unknown
+    length is sent like any other. -/
+theorem unknown_length_body_sent (m u : Bytes) (b : Bytes) :
+    ∃ hs, buildRequest ⟨m, u, [Call.bodyReader b]⟩ = .req 1 (upper m) u hs b := by
+  obtain ⟨hs, h, _⟩ := buildRequest_closed ⟨m, u, [Call.bodyReader b]⟩ (by simp [inDomain])
+  exact ⟨hs, by simpa [expectedUrl, lastQuery, expectedBody, lastBody, bodyOf] using h⟩
 
 /-! non-vacuity: concrete requests through the model and the oracle -/
 
